@@ -285,8 +285,9 @@ fn any_case(id: &str, ty: &str, b: &[u8]) -> Value {
     let mut sre: Vec<u8> = vec![];
     let sl = match Any::from_slice(ty, b) { Ok((v, _)) => { sre = v.bytes(); vec![1, stable(&v)] } Err(_) => vec![0, -1] };
     let mut c = Cursor::new(b);
-    let rd = match Any::read(ty, &mut c) { Ok(v) => vec![1, stable(&v)], Err(_) => vec![0, -1] };
-    json!({"ev": "wire_any", "id": id, "type": ty, "bytes": b, "slice": sl, "read": rd, "sre": sre})
+    let mut rre: Vec<u8> = vec![];
+    let rd = match Any::read(ty, &mut c) { Ok(v) => { rre = v.bytes(); vec![1, stable(&v)] } Err(_) => vec![0, -1] };
+    json!({"ev": "wire_any", "id": id, "type": ty, "bytes": b, "slice": sl, "read": rd, "sre": sre, "rre": rre})
 }
 
 pub fn run_case(id: &str, c: &Value) -> Value {
